@@ -124,11 +124,11 @@ func Bool(b bool) *Term {
 	}
 	return intern(&Term{K: KBool, S: SBool, I: 0})
 }
-func Str(s string) *Term            { return intern(&Term{K: KStrLit, S: SStr, Name: s}) }
-func Sym(n string, s Sort) *Term    { return intern(&Term{K: KSym, S: s, Name: n}) }
-func Alloc(n int) *Term             { return intern(&Term{K: KAlloc, S: SInt, I: int64(n)}) }
-func PlaceT(n int) *Term            { return intern(&Term{K: KPlace, S: SInt, I: int64(n)}) }
-func FuncT(n int) *Term             { return intern(&Term{K: KFunc, S: SInt, I: int64(n)}) }
+func Str(s string) *Term         { return intern(&Term{K: KStrLit, S: SStr, Name: s}) }
+func Sym(n string, s Sort) *Term { return intern(&Term{K: KSym, S: s, Name: n}) }
+func Alloc(n int) *Term          { return intern(&Term{K: KAlloc, S: SInt, I: int64(n)}) }
+func PlaceT(n int) *Term         { return intern(&Term{K: KPlace, S: SInt, I: int64(n)}) }
+func FuncT(n int) *Term          { return intern(&Term{K: KFunc, S: SInt, I: int64(n)}) }
 func App(n string, s Sort, a ...*Term) *Term {
 	return intern(&Term{K: KApp, S: s, Name: n, Args: a})
 }
